@@ -682,6 +682,35 @@ example : subC 0 1 mevs = 1 ∧ nackC 0 1 (Msg.run (Msg.init 0 [{}, {}]) mevs).o
     nackC 1 7 (Msg.run (Msg.init 0 [{}, {}]) mevs).out = 0 ∧
     subC 1 8 mevs = 1 ∧ pendC 1 8 (Msg.run (Msg.init 0 [{}, {}]) mevs).q.nodes = 1 := by decide
 
+open Coap.Sim in
+/-- **m_never_sent_again_partial** (`no_tx_without_pending` + conservation, lifted): split any in-scope run at any point
+at which no node of (session, mid) is in the send queue — i.e. by `m_single_outcome_partial` every `coap_send` of it
+so far has had its ONE outcome (ACK, NACK RST, NACK TOO_MANY_RETRIES).  If the rest of the run does not submit
+(session, mid) again, then the number of transmissions of (session, mid) never grows: it is never sent again, whatever
+else happens on this or any other session, and it never re-enters the queue. -/
+theorem m_never_sent_again_partial (now0 : Nat) (sess : List Msg.Sess) (evs1 evs2 : List Msg.Ev)
+    (hs : ∀ se ∈ sess, SessOk se) (hin : RunIn (Msg.init now0 sess) (evs1 ++ evs2)) (s mid : Nat)
+    (h0 : pendC s mid (Msg.run (Msg.init now0 sess) evs1).q.nodes = 0) (h2 : subC s mid evs2 = 0) :
+    txC s mid (Msg.run (Msg.init now0 sess) (evs1 ++ evs2)).out = txC s mid (Msg.run (Msg.init now0 sess) evs1).out ∧
+    pendC s mid (Msg.run (Msg.init now0 sess) (evs1 ++ evs2)).q.nodes = 0 := by
+  have hp := parOk_of sess hs
+  rw [runIn_append] at hin
+  obtain ⟨hi, hr, _⟩ := run_sim (P := fun _ _ _ => True) hp evs1 _ (Timer.init now0)
+    (inv_init _ now0 sess hs) (rel_init _ now0 sess) hin.1 (fun _ _ _ _ => trivial)
+  have := quiet_sim hp s mid evs2 _ _ hi hr hin.2 (fun _ _ _ _ => trivial) h0 h2
+  have e : Msg.run (Msg.init now0 sess) (evs1 ++ evs2) = Msg.run (Msg.run (Msg.init now0 sess) evs1) evs2 := by
+    simp [Msg.run, List.foldl_append]
+  rw [e]
+  exact this
+
+open Coap.Sim in
+/-- non-vacuity of `m_never_sent_again_partial`: the witness run split after the ACK of message (1,7): it was sent
+twice (first transmission + one retransmission) before, and still twice at the end -/
+example : RunIn (Msg.init 0 [{}, {}]) (mevs.take 8 ++ mevs.drop 8) ∧
+    pendC 1 7 (Msg.run (Msg.init 0 [{}, {}]) (mevs.take 8)).q.nodes = 0 ∧ subC 1 7 (mevs.drop 8) = 0 ∧
+    txC 1 7 (Msg.run (Msg.init 0 [{}, {}]) (mevs.take 8)).out = 2 ∧
+    txC 1 7 (Msg.run (Msg.init 0 [{}, {}]) mevs).out = 2 := by decide
+
 /-! ### (3') the returned wait against every pending deadline of every session -/
 open Coap.Msg in
 /-- **wait_le_every_deadline** (every state, any number of messages and sessions, no scope restriction): the wait
